@@ -321,6 +321,13 @@ def site_writer_conventions(ctx, rid):
             dparam = next((p_ for p_ in f.posparams if p_ == "data"), None) or (f.posparams[1] if len(f.posparams) > 1 else f.posparams[0])
             sites = []
             for e, holder in _value_exprs(f):
+                # an argument of a numpy function is a sub-expression of the value being built, not a value of its own
+                if isinstance(holder, ast.Call):
+                    root = holder.func
+                    while isinstance(root, ast.Attribute):
+                        root = root.value
+                    if isinstance(root, ast.Name) and root.id in ("np", "numpy"):
+                        continue
                 names = {x.id for x in ast.walk(e) if isinstance(x, ast.Name)}
                 # every expression that takes the orbital coefficients as a value is a site, also one that applies only
                 # one half of the conversion (or none): unless later statements apply the rest to its result, it is wrong
